@@ -1,6 +1,7 @@
 package main
 
 import (
+	"reflect"
 	"fmt"
 	"go/token"
 	"go/types"
@@ -273,7 +274,14 @@ func (e *Exec) finishPath(st *State, fr *Frame, res []Value, pos token.Pos, pani
 			}
 		}
 		if _, isParam := e.top.params[n]; !isParam {
-			cell = false // only parameters are overridden by their current value; result names keep their meaning
+			cell = false // result names keep their meaning
+		}
+		if cell {
+			// a parameter the body reassigns: in a postcondition its name
+			// denotes the ENTRY value (as in JML/Dafny/Gobra); final(x) is
+			// the value at return
+			env.vars["final$"+n] = v
+			cell = false
 		}
 		if !have || cell {
 			// (a variable whose address is taken, e.g. captured by a deferred
@@ -386,6 +394,108 @@ func (e *Exec) frameObligations(st *State, c *FuncContract, pos token.Pos) {
 // ---------------------------------------------------------------------------
 // Lemmas
 // ---------------------------------------------------------------------------
+
+// shapeObligations: the `persisted` declarations, decided by the generator
+// itself from go/types (no solver involved): every listed field exists, is
+// exported, has a JSON key that is not "-", no two fields of the struct share
+// a key (case-insensitively: encoding/json would then drop or confuse them),
+// and the field's type is one encoding/json restores by reflection.
+func (eng *Engine) shapeObligations(tag string) []*Obligation {
+	var out []*Obligation
+	for _, p := range eng.specs.Persisted {
+		if tag != "" && !hasTag(p.Tags, tag) {
+			continue
+		}
+		mk := func(field, problem string) {
+			name := "shape/" + p.Type + "." + field
+			o := &Obligation{Name: name, Group: name, Kind: "shape", Func: "shape", Tags: p.Tags, Pos: "-", Solver: "go/types",
+				Text: "persisted field " + p.Type + "." + field + " makes the JSON round trip"}
+			if problem == "" {
+				o.Status = "unsat"
+			} else {
+				o.Status = "sat"
+				o.Text += ": " + problem
+			}
+			out = append(out, o)
+		}
+		var st *types.Struct
+		i := strings.LastIndex(p.Type, ".")
+		if sp := eng.spkgs[p.Type[:i]]; sp != nil {
+			if obj := sp.Pkg.Scope().Lookup(p.Type[i+1:]); obj != nil {
+				st, _ = obj.Type().Underlying().(*types.Struct)
+			}
+		}
+		if st == nil {
+			mk("*", "no such struct type")
+			continue
+		}
+		keys := map[string]int{}
+		keyOf := func(f *types.Var, tag string) string {
+			k := strings.Split(reflectTag(tag, "json"), ",")[0]
+			if k == "" {
+				k = f.Name()
+			}
+			return k
+		}
+		for j := 0; j < st.NumFields(); j++ {
+			if f := st.Field(j); f.Exported() && reflectTag(st.Tag(j), "json") != "-" {
+				keys[strings.ToLower(keyOf(f, st.Tag(j)))]++
+			}
+		}
+		for _, fname := range p.Fields {
+			problem := "no such field"
+			for j := 0; j < st.NumFields(); j++ {
+				f := st.Field(j)
+				if f.Name() != fname {
+					continue
+				}
+				problem = ""
+				switch {
+				case !f.Exported():
+					problem = "the field is unexported, encoding/json skips it"
+				case reflectTag(st.Tag(j), "json") == "-":
+					problem = "the field is tagged json:\"-\""
+				case keys[strings.ToLower(keyOf(f, st.Tag(j)))] > 1:
+					problem = "another field of the struct uses the same JSON key"
+				case strings.Contains(reflectTag(st.Tag(j), "json"), ",omitempty") || strings.Contains(reflectTag(st.Tag(j), "json"), ",omitzero") || strings.Contains(reflectTag(st.Tag(j), "json"), ",string"):
+					// omitempty only drops zero values, which decode as zero: harmless; ",string" changes the wire form symmetrically
+				case !jsonRoundTrips(f.Type(), 0):
+					problem = "values of type " + f.Type().String() + " are not restored by encoding/json"
+				}
+			}
+			mk(fname, problem)
+		}
+	}
+	return out
+}
+
+func reflectTag(tag, key string) string {
+	v, _ := reflect.StructTag(tag).Lookup(key)
+	return v
+}
+
+// jsonRoundTrips: types whose values encoding/json writes and reads back
+// unchanged (float64 included: Go prints the shortest representation that
+// parses back to the same value; NaN/Inf make Marshal fail, which the callers' contracts see as an error).
+func jsonRoundTrips(t types.Type, depth int) bool {
+	if depth > 6 {
+		return false
+	}
+	switch u := t.Underlying().(type) {
+	case *types.Basic:
+		return u.Info()&(types.IsBoolean|types.IsInteger|types.IsString) != 0 || u.Kind() == types.Float64
+	case *types.Slice:
+		return jsonRoundTrips(u.Elem(), depth+1)
+	case *types.Pointer:
+		return jsonRoundTrips(u.Elem(), depth+1)
+	case *types.Struct:
+		return true // its own fields are the subject of their own `persisted` declaration
+	case *types.Map:
+		b, ok := u.Key().Underlying().(*types.Basic)
+		return ok && b.Info()&types.IsString != 0 && jsonRoundTrips(u.Elem(), depth+1)
+	}
+	return false
+}
 
 func (eng *Engine) lemmaObligations(tag string) (*FuncResult, error) {
 	res := &FuncResult{Key: "lemmas"}
